@@ -117,3 +117,51 @@ Theorem C19_cleanup_needs_consistent_counters :
   exists f', rebuild (Hdr 256 0 0 0 0 0, ILine 0 0 :: repeat (ILine 1 0) 256) = Ok f' /\ snd f' = [].
 Proof. exact rebuild_needs_bounds. Qed.
 Print Assumptions C19_cleanup_needs_consistent_counters.
+
+(* The whole Save of Model/C19.v (cleanup -> mtime decision -> temporary file -> rename -> reload), for EVERY tree f with
+   consistent counters in memory, over an existing .fav that is the image of some well-formed tree fo, for every
+   outcome rel of the mtime comparison. save_syscalls rel old f (Proofs/C19_save.v) is the list of system calls that
+   save hands to the file-system model: Create tmp, one Write per chunk of the cleaned tree, Rename tmp .fav when the
+   gate lets it write (no .fav yet, or rel > 0), and no call at all otherwise.
+   - cleanup succeeds (f1), and for EVERY number n of system calls executed before the process dies, Load of what is
+     then in .fav SUCCEEDS and returns either the old tree (renumber fo: fo as a reader sees it) or the new tree
+     (renumber f1) - never an error, never a mixture; the new one only if the gate let the save write;
+   - a save that runs to its end returns the reloaded new tree / the cleaned tree in memory (equal mtime) / the tree
+     reloaded from the untouched file (older), and what it reports as the content of .fav is what the complete
+     system-call list leaves.
+   Assumption as for C19_crash_atomic (Base/Fs.v): system calls are atomic w.r.t. the process dying, rename replaces
+   the target in one step, written data survives the death of the process. *)
+Theorem C19_save_sequence : forall (z : bool) (f : fav) (rel : Z) (fo : fav) (c : list Z),
+  lvl z f -> wf_fav fo -> file_image fo = Ok c ->
+  exists f1, cleanup f = Ok f1 /\ wf_fav f1 /\
+    (forall n, let disk := exec [(FN_FAV, c)] (firstn n (save_syscalls rel (Some c) f)) in
+       (lookup FN_FAV disk = Some c /\ load c = ROk (renumber fo)) \/
+       (0 < rel /\ lookup FN_FAV disk = Some (spec_file f1) /\ load (spec_file f1) = ROk (renumber f1))) /\
+    save rel (Some c) f = (if 0 <? rel then SOk (Some (spec_file f1)) (renumber f1)
+                           else if rel =? 0 then SOk (Some c) f1 else SOk (Some c) (renumber fo)) /\
+    image_of (save rel (Some c) f) = lookup FN_FAV (exec [(FN_FAV, c)] (save_syscalls rel (Some c) f)).
+Proof. exact save_sequence. Qed.
+Print Assumptions C19_save_sequence.
+
+(* the first save (no .fav yet): after any prefix there is still no .fav, or the complete new image that loads *)
+Theorem C19_save_sequence_fresh : forall (z : bool) (f : fav) (rel : Z), lvl z f ->
+  exists f1, cleanup f = Ok f1 /\ wf_fav f1 /\
+    (forall n, let disk := exec [] (firstn n (save_syscalls rel None f)) in
+       lookup FN_FAV disk = None \/
+       (lookup FN_FAV disk = Some (spec_file f1) /\ load (spec_file f1) = ROk (renumber f1))) /\
+    save rel None f = SOk (Some (spec_file f1)) (renumber f1) /\
+    image_of (save rel None f) = lookup FN_FAV (exec [] (save_syscalls rel None f)).
+Proof. exact save_sequence_fresh. Qed.
+Print Assumptions C19_save_sequence_fresh.
+
+(* exactly what the harness runs against ptt/fav (run_case op 1: a script of API calls, then Save into an empty home):
+   Save returns the cleaned tree t1 with the FavNum caches filled, t1 = the valid entries of t in order with counters =
+   counts on every level; and when no entry lost FAVH_FAV the returned tree is t itself up to the nested FavNum caches *)
+Theorem C19_api_save_load : forall (ops : list (list Z)) (t : fav) (n : Z),
+  run_script ops empty_fav 0 = Some (t, n) ->
+  exists t1, cleanup t = Ok t1 /\
+    save 1 None t = SOk (Some (spec_file t1)) (fill_cache t1) /\
+    map skel_item (snd t1) = skel_items (snd t) /\ lvl true t1 /\
+    (need_rebuild t = false -> t1 = t /\ fst (fill_cache t) = fst t /\ map zero_item (snd (fill_cache t)) = snd t).
+Proof. exact api_save_load. Qed.
+Print Assumptions C19_api_save_load.
